@@ -184,6 +184,14 @@ def universes_c03():
         E("f_delegshort", "A", 1, 28, mutate=_mut(_short_delegation)),
     ]
     us["forged"] = forged
+    # twins: the same event once authentic and once with a wrong signature (same id).  A relay that remembers what it
+    # has verified must not accept the forged twin after the authentic one was deleted, replaced or (ephemeral) never stored
+    us["twins"] = [
+        E("a", "A", 1, 10), E("a_bad", "A", 1, 10, mutate=_forge_sig, twin_of="a"),
+        E("da", "A", 5, 20, [["e", "a"]]),
+        E("x", "A", 20000, 10), E("x_bad", "A", 20000, 10, mutate=_forge_sig, twin_of="x"),
+        E("r1", "A", 10000, 10), E("r1_bad", "A", 10000, 10, mutate=_forge_sig, twin_of="r1"), E("r2", "A", 10000, 20),
+    ]
     return us
 
 
@@ -277,6 +285,7 @@ def run(prop, tier, seed, backends=BACKENDS, only_universe=None):
     depth = {"quick": 3, "thorough": 4}[tier]
     if prop == "C03":
         depth = {"quick": 1, "thorough": 2}[tier]     # every variant on its own (and pairs): the quantifier is over inputs
+        depth_of = {"twins": {"quick": 3, "thorough": 4}[tier]}
     cap = {"quick": 1500 if prop == "C06" else 500, "thorough": 20000}[tier]
     own = prop + "_"
     # phase 1: TLC generates behaviours of Store.tla per (universe, backend, writer mode)
@@ -287,9 +296,10 @@ def run(prop, tier, seed, backends=BACKENDS, only_universe=None):
         uni = Universe(descs, symtab=SYMTABS.get(uname))
         for backend in backends:
             for drain_each in ([True] if backend == "sql" else [True, False]):
-                d = depth if drain_each else depth + 1
+                d0 = depth_of.get(uname, depth) if prop == "C03" else depth
+                d = d0 if drain_each else d0 + 1
                 if len(descs) > 9 and not drain_each:
-                    d = depth
+                    d = d0
                 configs.append({"uname": uname, "uni": uni, "backend": backend, "drain_each": drain_each, "depth": d})
 
     def _gen(cf):
